@@ -24,7 +24,8 @@ def add_op(rng, res, swarm):
     if swarm.get('style') and rng.random() < 0.6:
         op['style'] = {'seed': rng.randint(0, 10 ** 6), 'shuffle_attrs': rng.random() < 0.5,
                        'cdata': rng.random() < 0.4, 'comments': rng.random() < 0.3,
-                       'charrefs': rng.random() < 0.3, 'mixed_quotes': rng.random() < 0.3}
+                       'charrefs': rng.random() < 0.3, 'mixed_quotes': rng.random() < 0.3,
+                       'dup_stubs': rng.random() < 0.3}
     return op
 
 
